@@ -174,6 +174,12 @@ package pool
 //@ func newLocalPool
 //@   modifies nothing
 //@   ensures fresh(result)
+//@   ensures result.nonnil && card(result.allocations) == 0 && card(result.ipToSub) == 0 && result.cnt
+//@   ensures forall s string :: !(s in result.allocations)
+//@   ensures forall k string :: !(k in result.ipToSub)
+
+//@ func generateAvailableIPs
+//@   modifies nothing
 //@ func NewPeerPool
 //@   ensures err == nil ==> result != nil && fresh(result) && result.nodeID == cfg.NodeID
 // (with fix_3 the list additionally passes through slices.Compact: "the node's own id and every
@@ -182,3 +188,71 @@ package pool
 
 //@ loop NewPeerPool#2
 //@   invariant !nodeFound
+
+// ---- peer.go: LocalPool, the addresses this node hands out itself (C01, C05) ----
+//
+// Abstract view: allocations (subscriber -> address), its reverse index ipToSub (address
+// string -> subscriber) and the free list available, all owned by LocalPool.mu.
+// ipkey(x) is the identity of x's net.IP.Equal class, ipstr(x) = x.String() (injective on
+// keys). Lock invariants: the free list is pairwise distinct (avdist) and disjoint from the
+// bindings (avfree), no two subscribers hold one address (inj), ipToSub is exactly the reverse
+// of allocations (fwd, rev), and the two tables have the same size (cnt).
+//@ type LocalPool
+//@   owns mu: allocations ipToSub available
+//@   inv nonnil: self.allocations != nil && self.ipToSub != nil
+//@   inv avnn: forall i int :: 0 <= i && i < len(self.available) ==> self.available[i] != nil
+//@   inv alnn: forall s string :: s in self.allocations ==> self.allocations[s] != nil
+//@   inv avdist: forall i int, j int :: 0 <= i && i < j && j < len(self.available) ==> ipkey(self.available[i]) != ipkey(self.available[j])
+//@   inv avfree: forall i int, s string :: 0 <= i && i < len(self.available) && s in self.allocations ==> ipkey(self.available[i]) != ipkey(self.allocations[s])
+//@   inv inj: forall s string, t string :: s in self.allocations && t in self.allocations && s != t ==> ipkey(self.allocations[s]) != ipkey(self.allocations[t])
+//@   inv fwd: forall s string :: s in self.allocations ==> ipstr(self.allocations[s]) in self.ipToSub && self.ipToSub[ipstr(self.allocations[s])] == s
+//@   inv rev: forall k string :: k in self.ipToSub ==> self.ipToSub[k] in self.allocations && ipstr(self.allocations[self.ipToSub[k]]) == k
+//@   inv cnt: card(self.allocations) == card(self.ipToSub)
+
+//@ func (p *PeerPool) makeResponse
+//@   requires ip != nil
+//@   modifies nothing
+//@   ensures result != nil && fresh(result) && result.SubscriberID == subscriberID && result.IP == ipstr(ip) && result.NodeID == p.nodeID
+
+// allocateLocal (C01): a subscriber that holds an address gets the same one and nothing
+// changes; otherwise the head of the free list moves to the subscriber, every other binding is
+// untouched and nobody else holds the returned address. (C05): an error is returned iff the
+// subscriber holds nothing and the free list is empty; free + held is conserved.
+//@ func (p *PeerPool) allocateLocal
+//@   indep
+//@   requires p.localPool != nil
+//@   modifies p.localPool.allocations, p.localPool.ipToSub, p.localPool.available
+//@   ensures locked(subscriberID in p.localPool.allocations) ==> err == nil && result.IP == ipstr(locked(p.localPool.allocations[subscriberID])) && p.localPool.available == locked(p.localPool.available) && dom(p.localPool.allocations) == locked(dom(p.localPool.allocations)) && vals(p.localPool.allocations) == locked(vals(p.localPool.allocations)) && dom(p.localPool.ipToSub) == locked(dom(p.localPool.ipToSub)) && vals(p.localPool.ipToSub) == locked(vals(p.localPool.ipToSub))
+//@   ensures !locked(subscriberID in p.localPool.allocations) && locked(len(p.localPool.available)) > 0 ==> err == nil && result.IP == ipstr(locked(p.localPool.available[0])) && dom(p.localPool.allocations) == locked(dom(p.localPool.allocations))[subscriberID := true] && vals(p.localPool.allocations) == locked(vals(p.localPool.allocations))[subscriberID := locked(p.localPool.available[0])]
+//@   ensures !locked(subscriberID in p.localPool.allocations) && locked(len(p.localPool.available)) > 0 ==> dom(p.localPool.ipToSub) == locked(dom(p.localPool.ipToSub))[result.IP := true] && vals(p.localPool.ipToSub) == locked(vals(p.localPool.ipToSub))[result.IP := subscriberID]
+//@   ensures !locked(subscriberID in p.localPool.allocations) && locked(len(p.localPool.available)) > 0 ==> len(p.localPool.available) == locked(len(p.localPool.available)) - 1 && forall i int :: 0 <= i && i < len(p.localPool.available) ==> p.localPool.available[i] == locked(p.localPool.available[i+1])
+//@   ensures err == nil ==> result != nil && result.SubscriberID == subscriberID && subscriberID in p.localPool.allocations && result.IP == ipstr(p.localPool.allocations[subscriberID]) && forall s string :: s in p.localPool.allocations && s != subscriberID ==> ipkey(p.localPool.allocations[s]) != ipkey(p.localPool.allocations[subscriberID])
+//@   ensures (err != nil) <==> (!locked(subscriberID in p.localPool.allocations) && locked(len(p.localPool.available)) == 0)
+//@   ensures err != nil ==> result == nil && p.localPool.available == locked(p.localPool.available) && dom(p.localPool.allocations) == locked(dom(p.localPool.allocations)) && vals(p.localPool.allocations) == locked(vals(p.localPool.allocations)) && dom(p.localPool.ipToSub) == locked(dom(p.localPool.ipToSub))
+//@   ensures len(p.localPool.available) + card(p.localPool.allocations) == locked(len(p.localPool.available) + card(p.localPool.allocations))
+
+// releaseLocal (C05): exactly the subscriber's address goes back to the free list together
+// with its reverse entry; every other binding and free-list entry is untouched; releasing a
+// subscriber that holds nothing changes nothing.
+//@ func (p *PeerPool) releaseLocal
+//@   indep
+//@   requires p.localPool != nil
+//@   modifies p.localPool.allocations, p.localPool.ipToSub, p.localPool.available
+//@   ensures err == nil
+//@   ensures locked(subscriberID in p.localPool.allocations) ==> dom(p.localPool.allocations) == locked(dom(p.localPool.allocations))[subscriberID := false] && dom(p.localPool.ipToSub) == locked(dom(p.localPool.ipToSub))[ipstr(locked(p.localPool.allocations[subscriberID])) := false]
+//@   ensures locked(subscriberID in p.localPool.allocations) ==> len(p.localPool.available) == locked(len(p.localPool.available)) + 1 && p.localPool.available[locked(len(p.localPool.available))] == locked(p.localPool.allocations[subscriberID])
+//@   ensures forall i int :: 0 <= i && i < locked(len(p.localPool.available)) ==> p.localPool.available[i] == locked(p.localPool.available[i])
+//@   ensures forall s string :: s != subscriberID ==> p.localPool.allocations[s] == locked(p.localPool.allocations[s]) && (s in p.localPool.allocations) == locked(s in p.localPool.allocations)
+//@   ensures !locked(subscriberID in p.localPool.allocations) ==> p.localPool.available == locked(p.localPool.available) && dom(p.localPool.allocations) == locked(dom(p.localPool.allocations)) && vals(p.localPool.allocations) == locked(vals(p.localPool.allocations)) && dom(p.localPool.ipToSub) == locked(dom(p.localPool.ipToSub)) && vals(p.localPool.ipToSub) == locked(vals(p.localPool.ipToSub))
+//@   ensures len(p.localPool.available) + card(p.localPool.allocations) == locked(len(p.localPool.available) + card(p.localPool.allocations))
+
+// Stats (C05): the reported figures are the sizes of the tables.
+//@ func (p *PeerPool) Stats
+//@   requires p.localPool != nil
+//@   modifies nothing
+//@   ensures result.Allocated == lockedN(1, card(p.localPool.allocations)) && result.Available == lockedN(1, len(p.localPool.available)) && result.Total == result.Allocated + result.Available
+
+//@ func (p *PeerPool) Get
+//@   requires injective() && positive() && p.localPool != nil
+//@   modifies nothing
+//@   ensures result1 ==> result != nil && result.SubscriberID == subscriberID
